@@ -1,0 +1,118 @@
+//go:build verif
+
+package localstore
+
+import (
+	"github.com/gauss-project/aurorafs/pkg/shed"
+)
+
+// Verification hooks (build tag verif): read-only dumps of the indexes and
+// deterministic control of garbage collection. Nothing here is compiled into
+// a normal build.
+
+// VerifEntry is one row of an index dump.
+type VerifEntry struct {
+	Address         []byte
+	Data            []byte
+	AccessTimestamp int64
+	StoreTimestamp  int64
+	BinID           uint64
+	PinCounter      uint64
+	GCounter        uint64
+}
+
+// VerifDump is a snapshot of all localstore indexes.
+type VerifDump struct {
+	Data   []VerifEntry // retrievalDataIndex
+	Access []VerifEntry // retrievalAccessIndex
+	GC     []VerifEntry // gcIndex (one row per collectable file root)
+	Pin    []VerifEntry // pinIndex
+	GCSize uint64       // persisted cached-chunk counter
+}
+
+func verifRows(idx shed.Index, withData bool) (rows []VerifEntry, err error) {
+	err = idx.Iterate(func(item shed.Item) (stop bool, err error) {
+		e := VerifEntry{
+			Address:         append([]byte(nil), item.Address...),
+			AccessTimestamp: item.AccessTimestamp,
+			StoreTimestamp:  item.StoreTimestamp,
+			BinID:           item.BinID,
+			PinCounter:      item.PinCounter,
+			GCounter:        item.GCounter,
+		}
+		if withData {
+			e.Data = append([]byte(nil), item.Data...)
+		}
+		rows = append(rows, e)
+		return false, nil
+	}, nil)
+	return rows, err
+}
+
+// VerifDump reads all indexes. It takes batchMu so that the snapshot is not
+// torn by a concurrent batch.
+func (db *DB) VerifDump() (d VerifDump, err error) {
+	db.batchMu.Lock()
+	defer db.batchMu.Unlock()
+	if d.Data, err = verifRows(db.retrievalDataIndex, true); err != nil {
+		return d, err
+	}
+	if d.Access, err = verifRows(db.retrievalAccessIndex, false); err != nil {
+		return d, err
+	}
+	if d.GC, err = verifRows(db.gcIndex, false); err != nil {
+		return d, err
+	}
+	if d.Pin, err = verifRows(db.pinIndex, false); err != nil {
+		return d, err
+	}
+	d.GCSize, err = db.gcSize.Get()
+	return d, err
+}
+
+// VerifCollectGarbage runs one garbage collection synchronously.
+func (db *DB) VerifCollectGarbage() (collected uint64, done bool, err error) {
+	return db.collectGarbage()
+}
+
+// VerifTriggerGC signals the collection worker like a capacity overflow does.
+func (db *DB) VerifTriggerGC() { db.triggerGarbageCollection() }
+
+// VerifGCRunning reports whether a collection run is in progress.
+func (db *DB) VerifGCRunning() bool {
+	db.batchMu.Lock()
+	defer db.batchMu.Unlock()
+	return db.gcRunning
+}
+
+// VerifGCPending reports whether a collection trigger is queued.
+func (db *DB) VerifGCPending() bool { return len(db.collectGarbageTrigger) > 0 }
+
+// VerifCapacity returns the configured capacity and the collection target.
+func (db *DB) VerifCapacity() (capacity, target uint64) { return db.capacity, db.gcTarget() }
+
+// VerifSetHooks installs the package's existing test hooks.
+func VerifSetHooks(collected func(uint64), iteratorDone func(), updateGC func()) {
+	testHookCollectGarbage = collected
+	testHookGCIteratorDone = iteratorDone
+	testHookUpdateGC = updateGC
+}
+
+// VerifSetNow overrides the timestamp source (nil restores the default).
+func VerifSetNow(f func() int64) func() {
+	prev := now
+	if f != nil {
+		now = f
+	}
+	return func() { now = prev }
+}
+
+// VerifSetGCParams overrides the collection target ratio and batch size.
+func VerifSetGCParams(ratio float64, batch uint64) {
+	if ratio > 0 {
+		gcTargetRatio = ratio
+	}
+	if batch > 0 {
+		gcBatchSize = batch
+	}
+}
